@@ -209,7 +209,7 @@ def run(ctx, rep):
                 okk = any(x[1] == "Ok" and mine(x) for x in decided) and not any(x[1] == "Err" and mine(x) for x in decided)
                 rep.check("C01.fallback", "%s is selected only on a path where its own encoder returned Ok" % rec, okk, eb.loc(st_["sp"]), "",
                           "%s is used as the subframe although its encoder failed (or the other one's result was tested): a partially written candidate would be emitted; facts: %s" % (rec, fact_str(frozenset(decided))))
-        rep.floor("C01.fallback", "candidate selections after the encoders returned", nuse, 2)
+        rep.floor("C01.fallback", "candidate selections after the encoders returned", nuse, 1)
 
     # ---- C01.pred -----------------------------------------------------------------------------------------------
     sigs = {}
